@@ -20,8 +20,8 @@ type ReaderWriterAt interface {
 
 // ResumableVersion performs two tasks - check if there is a valid header at the start of the,
 // reader, then check whether the version of that header matches what we expect.
-func ResumableVersion(reader io.Reader, writeAsV1 bool) error {
-	version, err := carv2.ReadVersion(reader)
+func ResumableVersion(reader io.Reader, writeAsV1 bool, opts ...carv2.Option) error {
+	version, err := carv2.ReadVersion(reader, opts...)
 	if err != nil {
 		// The file is not a valid CAR file and cannot resume from it.
 		// Or the write must have failed before pragma was written.
